@@ -88,6 +88,7 @@ type c01Event struct {
 type c01Case struct {
 	workers  int
 	mode     string // w: AddEventAndWait one by one; a: AddEvent all, then Finish
+	order    string // p: processor first (a worker panic kills the process: CRASH); i: index first (a panic is recovered: PANIC)
 	rules    []c01Rule
 	scopeNil bool
 	scope    []c01KV // path, "0"/"1"
@@ -178,7 +179,7 @@ func (c *c01Case) encode() string {
 	if !c.scopeNil {
 		sc = c01KVs(c.scope)
 	}
-	return fmt.Sprintf("w=%d m=%s r=%s s=%s e=%s x=%s", c.workers, c.mode, j(rs, "|"), sc, j(es, "|"), j(tab, ","))
+	return fmt.Sprintf("w=%d m=%s o=%s r=%s s=%s e=%s x=%s", c.workers, c.mode, c.order, j(rs, "|"), sc, j(es, "|"), j(tab, ","))
 }
 
 func c01UnList(s string) []string {
@@ -214,6 +215,8 @@ func c01Decode(payload string) *c01Case {
 			c.workers, _ = strconv.Atoi(v)
 		case "m":
 			c.mode = v
+		case "o":
+			c.order = v
 		case "r":
 			if v == "_" {
 				break
@@ -286,88 +289,144 @@ func (e *c01Event) build() *engine.Event {
 
 func c01Run(payload string) string {
 	c := c01Decode(payload)
-	var mu sync.Mutex
-	rec := map[*engine.Event][]string{}
-
-	// 1. the real processor
-	proc := engine.NewProcessor(c.workers)
-	errs := ""
-	for i := range c.rules {
-		name := c.rules[i].name
-		err := proc.AddRule(c.rules[i].build(func(p engine.Processor, m engine.Monitor, e *engine.Event, tid uint64) error {
-			mu.Lock()
-			rec[e] = append(rec[e], name)
-			mu.Unlock()
-			return nil
-		}))
-		if err != nil {
-			errs += "1"
-		} else {
-			errs += "0"
+	// the index alone
+	type idxRes struct{ t, m string }
+	var ires []idxRes
+	runIndex := func() {
+		idx := engine.NewRuleIndex()
+		for i := range c.rules {
+			idx.AddRule(c.rules[i].build(nil))
 		}
-	}
-	if errs == "" {
-		errs = "_"
-	}
-	newScope := func() *engine.RuleScope {
-		defs := map[string]bool{}
-		for _, d := range c.scope {
-			defs[d.key] = d.tok == "1"
-		}
-		return engine.NewRuleScope(defs)
-	}
-	proc.Start()
-	evs := make([]*engine.Event, len(c.events))
-	added := make([]bool, len(c.events))
-	for i := range c.events {
-		evs[i] = c.events[i].build()
-		var m engine.Monitor
-		var err error
-		if c.mode == "w" {
-			var rm *engine.RootMonitor
-			if !c.scopeNil {
-				rm = proc.NewRootMonitor(nil, newScope())
+		for i := range c.events {
+			ev := c.events[i].build()
+			t := "0"
+			if idx.IsTriggering(ev) {
+				t = "1"
 			}
-			m, err = proc.AddEventAndWait(evs[i], rm)
-		} else {
-			var pm engine.Monitor
-			if !c.scopeNil {
-				pm = proc.NewRootMonitor(nil, newScope())
+			var mn []string
+			for _, r := range idx.Match(ev) {
+				mn = append(mn, r.Name)
 			}
-			m, err = proc.AddEvent(evs[i], pm)
+			ires = append(ires, idxRes{t, c01Names(mn)})
 		}
-		if err != nil {
-			return "ERR " + oneLine(err.Error())
-		}
-		added[i] = m != nil && !reflect.ValueOf(m).IsNil()
 	}
-	proc.Finish()
+	if c.order != "p" {
+		runIndex()
+	}
 
-	// 2. the index alone
-	idx := engine.NewRuleIndex()
-	for i := range c.rules {
-		idx.AddRule(c.rules[i].build(nil))
+	// the real processor; a stalled attempt is repeated once with a fresh processor so that only
+	// a reproducible hang is reported (an intermittent stall of the pool is C09's subject, it is counted)
+	type procRes struct {
+		errs  string
+		added []bool
+		x     []string
+		fail  string
+	}
+	runProc := func() procRes {
+		var mu sync.Mutex
+		rec := map[*engine.Event][]string{}
+		proc := engine.NewProcessor(c.workers)
+		errs := ""
+		for i := range c.rules {
+			name := c.rules[i].name
+			err := proc.AddRule(c.rules[i].build(func(p engine.Processor, m engine.Monitor, e *engine.Event, tid uint64) error {
+				mu.Lock()
+				rec[e] = append(rec[e], name)
+				mu.Unlock()
+				return nil
+			}))
+			if err != nil {
+				errs += "1"
+			} else {
+				errs += "0"
+			}
+		}
+		if errs == "" {
+			errs = "_"
+		}
+		newScope := func() *engine.RuleScope {
+			defs := map[string]bool{}
+			for _, d := range c.scope {
+				defs[d.key] = d.tok == "1"
+			}
+			return engine.NewRuleScope(defs)
+		}
+		proc.Start()
+		evs := make([]*engine.Event, len(c.events))
+		added := make([]bool, len(c.events))
+		for i := range c.events {
+			evs[i] = c.events[i].build()
+			var m engine.Monitor
+			var err error
+			if c.mode == "w" {
+				var rm *engine.RootMonitor
+				if !c.scopeNil {
+					rm = proc.NewRootMonitor(nil, newScope())
+				}
+				m, err = proc.AddEventAndWait(evs[i], rm)
+			} else {
+				var pm engine.Monitor
+				if !c.scopeNil {
+					pm = proc.NewRootMonitor(nil, newScope())
+				}
+				m, err = proc.AddEvent(evs[i], pm)
+			}
+			if err != nil {
+				return procRes{fail: "ERR " + oneLine(err.Error())}
+			}
+			added[i] = m != nil && !reflect.ValueOf(m).IsNil()
+		}
+		proc.Finish()
+
+		xs := make([]string, len(evs))
+		mu.Lock()
+		for i := range evs {
+			xs[i] = c01Names(rec[evs[i]])
+		}
+		mu.Unlock()
+		return procRes{errs: errs, added: added, x: xs}
+	}
+	var pres procRes
+	for attempt := 0; ; attempt++ {
+		ch := make(chan procRes, 1)
+		go func() {
+			defer func() {
+				if e := recover(); e != nil {
+					ch <- procRes{fail: "PANIC " + oneLine(fmt.Sprint(e))}
+				}
+			}()
+			ch <- runProc()
+		}()
+		stalled := false
+		select {
+		case pres = <-ch:
+		case <-time.After(4 * time.Second):
+			stalled = true
+		}
+		if !stalled {
+			break
+		}
+		if attempt == 1 {
+			return "HANG"
+		}
+		CountRun("stalled-attempt-repeated")
+	}
+	if pres.fail != "" {
+		return pres.fail
+	}
+	errs, added := pres.errs, pres.added
+	if c.order == "p" {
+		runIndex()
 	}
 	var sb strings.Builder
 	sb.WriteString("a=" + errs)
 	for i := range c.events {
-		ev := c.events[i].build()
-		t := "0"
-		if idx.IsTriggering(ev) {
-			t = "1"
-		}
-		var mn []string
-		for _, r := range idx.Match(ev) {
-			mn = append(mn, r.Name)
-		}
 		k := "0"
 		if added[i] {
 			k = "1"
 		}
-		mu.Lock()
-		x := c01Names(rec[evs[i]])
-		mu.Unlock()
-		sb.WriteString(" T" + t + "/M" + c01Names(mn) + "/K" + k + "/X" + x)
+		x := pres.x[i]
+		sb.WriteString(" T" + ires[i].t + "/M" + ires[i].m + "/K" + k + "/X" + x)
 	}
 	return sb.String()
 }
@@ -392,6 +451,12 @@ func c01Gen(g *Gen) {
 			c.mode = "w"
 			if n%5 == 4 {
 				c.mode = "a"
+			}
+		}
+		if c.order == "" {
+			c.order = "i"
+			if what == "corpus" || n%40 == 7 {
+				c.order = "p"
 			}
 		}
 		n++
@@ -746,7 +811,8 @@ func c01Gen(g *Gen) {
 
 func init() {
 	register("C01", &Prop{
-		Timeout: 8 * time.Second,
+		Timeout:          12 * time.Second,
+		NoRestartOnPanic: true, // a recovered panic of AddRule / Match leaves no damaged global state in the engine
 		Setup: func() {
 			for _, r := range c01Regex {
 				c01RegexC = append(c01RegexC, regexp.MustCompile(r))
